@@ -656,6 +656,108 @@ def check_shallow_hooks(ctx: Check, tree: Tree, hook_names: list[str], need_comp
             ctx.ok("R-SHALLOW", where, f"{what}: on {facts['n']} model instances the arguments are the field values themselves (nested dataclass instances are handed out as they are), one per field, in field order")
 
 
+# ---------------------------------------------------------------------------- R-EVALSUBST
+def _own_argument_names(fn: FuncInfo, field_names: set[str]) -> set[str]:
+    """Locals of ``evaluate`` that hold an argument of the instance: targets of an unpacking of ``self.args`` and plain
+    copies of ``self.<field>`` / ``self.args[i]``."""
+    out: set[str] = set()
+    for n in walk_function(fn.node, nested=False):
+        if not isinstance(n, ast.Assign) or len(n.targets) != 1:
+            continue
+        t, v = n.targets[0], n.value
+        text = unparse(v)
+        if isinstance(t, (ast.Tuple, ast.List)) and text in {"self.args", "self._args"}:
+            for e in t.elts:
+                e = e.value if isinstance(e, ast.Starred) else e
+                if isinstance(e, ast.Name):
+                    out.add(e.id)
+        elif isinstance(t, ast.Name) and (text.startswith("self.args[") or (text.startswith("self.") and text[5:] in field_names)):
+            out.add(t.id)
+    return out
+
+
+def _substitution_keys(fn: FuncInfo, call: ast.Call) -> list[ast.AST]:
+    """The expressions that a .xreplace / .subs / .replace call replaces (keys of a dict display - directly or through
+    one local -, first element of pairs, first positional argument of the two-argument forms)."""
+    def keys_of(e: ast.AST, depth: int = 0) -> list[ast.AST]:
+        if isinstance(e, ast.Dict):
+            return [k for k in e.keys if k is not None]
+        if isinstance(e, ast.DictComp):
+            return [e.key]
+        if isinstance(e, (ast.List, ast.Tuple)):
+            return [x.elts[0] for x in e.elts if isinstance(x, (ast.Tuple, ast.List)) and len(x.elts) == 2]
+        if isinstance(e, ast.Call) and isinstance(e.func, ast.Name) and e.func.id in {"dict", "zip", "list", "tuple"} and e.args:
+            if e.func.id == "zip":
+                a = e.args[0]
+                return list(a.elts) if isinstance(a, (ast.List, ast.Tuple)) else [a]
+            return keys_of(e.args[0], depth)
+        if isinstance(e, ast.Name) and depth < 2:
+            out: list[ast.AST] = []
+            for n in walk_function(fn.node, nested=False):
+                if isinstance(n, ast.Assign) and len(n.targets) == 1 and isinstance(n.targets[0], ast.Name) and n.targets[0].id == e.id:
+                    out += keys_of(n.value, depth + 1)
+                elif isinstance(n, ast.Assign) and len(n.targets) == 1 and isinstance(n.targets[0], ast.Subscript) and isinstance(n.targets[0].value, ast.Name) and n.targets[0].value.id == e.id:
+                    out.append(n.targets[0].slice)
+            return out
+        return []
+
+    if len(call.args) == 2 and call.func.attr in {"subs", "replace"}:  # type: ignore[union-attr]
+        return [call.args[0]]
+    return keys_of(call.args[0]) if call.args else []
+
+
+def check_evaluate_substitutes_own_arguments(ctx: Check, tree: Tree) -> None:
+    """R-EVALSUBST: the definition that ``evaluate()`` of an @unevaluated class builds must not be obtained by
+    substituting FOR one of the instance's own arguments (``expr.xreplace({s: m0**2})`` with ``s`` an argument): after
+    an outer substitution the argument is an arbitrary expression - a number, another argument, a sub-expression of
+    another argument - and the inner substitution then also rewrites the other occurrences, so substituting and then
+    unfolding differs from unfolding and then substituting.  Helpers of the package that receive own arguments are
+    followed (two levels)."""
+    classes = expression_classes(tree)
+    n = 0
+    for q, ec in sorted(classes.items()):
+        ev = ec.method("evaluate")
+        if ev is None:
+            continue
+        n += 1
+        field_names = {f.name for f in ec.fields}
+        work: list[tuple[FuncInfo, set[str], int]] = [(ev, _own_argument_names(ev, field_names), 0)]
+        seen: set[str] = set()
+        problems: list[tuple[ast.AST, str]] = []
+        while work:
+            fn, own, depth = work.pop()
+            if fn.qual in seen:
+                continue
+            seen.add(fn.qual)
+
+            def is_own(e: ast.AST, own=own, fn=fn) -> bool:
+                if isinstance(e, ast.Name):
+                    return e.id in own
+                text = unparse(e)
+                return fn is ev and (text.startswith("self.args[") or (text.startswith("self.") and text[5:] in field_names))
+
+            for node in walk_function(fn.node, nested=False):
+                if isinstance(node, ast.Call) and isinstance(node.func, ast.Attribute) and node.func.attr in {"xreplace", "subs", "replace"}:
+                    for k in _substitution_keys(fn, node):
+                        if is_own(k):
+                            problems.append((node, f"{fn.qual}: `{unparse(node)[:70]}` substitutes for `{unparse(k)}`, an argument of the instance"))
+                if isinstance(node, ast.Call) and depth < 2:
+                    callee = tree.callee(node, fn)
+                    target = tree.funcs.get(callee) if callee else None
+                    if target is None or not target.qual.startswith("ampform") or target.cls is not None and target.name in {"__new__", "__init__"}:
+                        continue
+                    names = target.params
+                    if target.cls is not None and names and names[0] in {"self", "cls"}:
+                        names = names[1:]
+                    bound = {pn for a, pn in zip(node.args, names) if is_own(a)} | {kw.arg for kw in node.keywords if kw.arg and is_own(kw.value)}
+                    if bound:
+                        work.append((target, bound, depth + 1))
+        ctx.verdict(not problems, "R-EVALSUBST", f"{q}.evaluate::substitutes-own-argument", tree.loc(problems[0][0] if problems else ev.node),
+                    f"{ec.name}.evaluate builds its definition without substituting for one of its own arguments", [t for _, t in problems] or None)
+    if n < 10:
+        raise AnalysisError(f"R-EVALSUBST: only {n} evaluate() methods of @unevaluated classes found (more than 20 confirmed)")
+
+
 # ---------------------------------------------------------------------------- R-PREC
 def check_precedence(ctx: Check, tree: Tree, prefixes: tuple[str, ...]) -> int:
     """R-PREC over the printer methods of the given modules."""
@@ -1084,6 +1186,7 @@ def run(ctx: Check, tree: Tree) -> None:
     ctx.section(check_subs_returns, ctx, tree)  # the sum helper class: subs-then-unfold == unfold-then-subs needs the pools substituted, too
     from .c15 import check_reentrant_new, check_reentrant_none_token
 
+    ctx.section(check_evaluate_substitutes_own_arguments, ctx, tree)
     ctx.section(check_reentrant_none_token, ctx, tree)
     ctx.section(check_reentrant_new, ctx, tree)  # "reproduced by rebuilding it from its own arguments" for the array helper classes
     ctx.section(check_precedence, ctx, tree, prefixes=("ampform",))
